@@ -157,7 +157,8 @@ def run(tier):
         ev.tlc(r, "dev not " + chk)
         devres["missing:" + chk] = bool(r["violated"])
     # link graphs: FsTree NeverHangs (with the pre-fix cycle check as deviation)
-    write_cfg(cfg, spec="Spec", constants={"MaxLen": 3, "Emit": False, "LinkFlagsDropped": False, "CycleCheckStartOnly": True, "GlobLinkPrefixDropped": False}, invariants=["NeverHangs"], deadlock=False)
+    write_cfg(cfg, spec="Spec", constants={"MaxLen": 3, "Emit": False, "LinkFlagsDropped": False, "CycleCheckStartOnly": True, "GlobLinkPrefixDropped": False},
+              defs={"OptSet": "{[defUid |-> 0, forceUid |-> 0 - 1]}"}, invariants=["NeverHangs"], deadlock=False)
     r = run_tlc("FsTree", cfg, workers=16, timeout=1800, heap="16g")
     ev.tlc(r, "dev FsTree CycleCheckStartOnly")
     devres["CycleCheckStartOnly(pre-fix tree)"] = bool(r["violated"])
